@@ -65,6 +65,14 @@ def build (H : Bytes → Bytes) (names : List Bytes) : Store :=
 def reset (H : Bytes → Bytes) (st : Store) (text : Bytes) : Store × Option Nat :=
   if tooLong text then (st, none) else (build H (listed text), some (listed text).length)
 
+/-- `NewStorage(hostnames)`: an empty map, reset with the text unless the text is empty; a scanner
+error means no storage at all (`none`). -/
+def newStorage (H : Bytes → Bytes) (text : Bytes) : Option Store × Option Nat :=
+  if text = [] then (some Store.empty, some 0)
+  else match (reset H Store.empty text).2 with
+    | none => (none, none)
+    | some n => (some (reset H Store.empty text).1, some n)
+
 /-- `Storage.Matches` on the digest of the host. -/
 def matchesSum (st : Store) (sum : Bytes) : Bool :=
   (st (sum.take 2)).any (fun suf => sum.take 2 ++ suf == sum)
@@ -74,6 +82,17 @@ def «matches» (H : Bytes → Bytes) (st : Store) (host : Bytes) : Bool := matc
 /-- `Storage.Hashes` (binary digests; the hex encoding is applied by the driver). -/
 def hashes (st : Store) (prefs : List Bytes) : List Bytes :=
   prefs.flatMap (fun p => (st p).map (fun suf => p ++ suf))
+
+/-- One nibble as a lower-case hex character (`hex.Encode`). -/
+def hexDigit (n : UInt8) : UInt8 := if n < 10 then 48 + n else 87 + n
+
+/-- `hex.Encode`: the answer strings of `Storage.Hashes` are the digests in lower-case hex. -/
+def hexEncode : Bytes → Bytes
+  | [] => []
+  | b :: r => hexDigit (b / 16) :: hexDigit (b % 16) :: hexEncode r
+
+/-- `Storage.Hashes` as the code returns it: hex strings. -/
+def hashesHex (st : Store) (prefs : List Bytes) : List Bytes := (hashes st prefs).map hexEncode
 
 /-! ### prefixesFromStr -/
 
@@ -107,12 +126,16 @@ def dedup : List Bytes → List Bytes
   | [] => []
   | a :: r => if a ∈ r then dedup r else a :: dedup r
 
+/-- The two loops of `prefixesFromStr`: the switch over the pieces filling the set, then the
+decoding of the set's values. -/
+def decodePieces (xs : List Bytes) : Option (List Bytes) :=
+  match allSome (xs.map piece) with
+  | none => none
+  | some ps => allSome ((dedup ps).map decodeHex)
+
 /-- `prefixesFromStr`: `none` is the error return. -/
 def prefixesFromStr (s : Bytes) : Option (List Bytes) :=
-  if s = [] then some []
-  else match allSome ((splitOn dot s).map piece) with
-    | none => none
-    | some ps => allSome ((dedup ps).map decodeHex)
+  if s = [] then some [] else decodePieces (splitOn dot s)
 
 /-! ### hashableSubdomains -/
 
@@ -124,6 +147,22 @@ dots: the longest suffix of `d` with at most three dots. -/
 def cut4 : Bytes → Bytes
   | [] => []
   | c :: r => if countDots (c :: r) ≤ 3 then c :: r else cut4 r
+
+/-- `strings.LastIndexFunc(domain, f)` with the counting closure `f`, as it runs: from the last
+byte to the first (a dot is one byte and never part of a longer UTF-8 sequence, so bytes and runes
+agree), `dotsNum` in `n`, the bytes already passed in `acc`.  `some acc` = `domain[i+1:]` at the
+first byte where the closure returns true; `none` = the closure never did (`i == -1`). -/
+def cutScan : Bytes → Nat → Bytes → Option Bytes
+  | [], _, _ => none
+  | c :: r, n, acc =>
+    if (if c = dot then n + 1 else n) = 4 then some acc
+    else cutScan r (if c = dot then n + 1 else n) (c :: acc)
+
+/-- The cut as `hashableSubdomains` performs it; `cut4Scan_eq` proves it equal to `cut4`. -/
+def cut4Scan (d : Bytes) : Bytes :=
+  match cutScan d.reverse 0 [] with
+  | some s => s
+  | none => d
 
 /-- The strict parents of `d`: what follows each dot, left to right. -/
 def parents : Bytes → List Bytes
@@ -153,7 +192,7 @@ def effSuffix (ps : Bytes → Bytes × Bool) (d : Bytes) : Bytes :=
   icannSuffix ps (d.length + 1) (ps d)
 
 /-- The part of `hashableSubdomains` after the suffix has been determined. -/
-def hashableCore (d p : Bytes) : List Bytes := (subdomains (cut4 d)).takeWhile (fun s => s != p)
+def hashableCore (d p : Bytes) : List Bytes := (subdomains (cut4Scan d)).takeWhile (fun s => s != p)
 
 def hashableSubdomains (ps : Bytes → Bytes × Bool) (d : Bytes) : List Bytes :=
   hashableCore d (effSuffix ps d)
